@@ -12,7 +12,7 @@ sys.path.insert(0, os.path.join(ROOT, "tools"))
 sys.path.insert(0, os.path.join(ROOT, "tools", "checks"))
 
 # checks validated by the integrator (unchanged tree passes with several seeds, breaking changes detected)
-READY = ["C01", "C02", "C03", "C04", "C05", "C06", "C07", "C08", "C09", "C10", "C11", "C12", "C13", "C14", "C15", "C16", "C17", "C19", "C20"]
+READY = ["C%02d" % i for i in range(1, 21)]
 
 # every tools/checks/cXX.py that defines MANIFEST = dict(text=, note=, technique=, design=[, category=]) is a claimed check
 CLAIMED = {}
